@@ -514,6 +514,74 @@ def install(eng):
         return UNIT
     m(r'^(bumpalo::collections::|std::vec::|alloc::vec::)?Vec::extend_from_slice$', m_extend_from_slice)
 
+    # ---------------------------------------------------------------- VecDeque (logical queue over a sequence)
+    class DequeV:
+        """VecDeque<T>: elements seq[head .. head+len) (no ring wrap-around in the abstract view)"""
+        rust_ty = 'VecDeque'
+
+        def __init__(self, seq, head, length):
+            self.seq, self.head, self.len = seq, head, length
+
+        def copy_value(self, eng):
+            return self
+    eng.DequeV = DequeV
+
+    def dq(eng, v):
+        while isinstance(v, Ref):
+            v = v.cell.get(eng)
+        if not isinstance(v, DequeV):
+            raise Unsupported('expected VecDeque, got ' + type(v).__name__)
+        return v
+
+    def mat_deque(eng, ty, backing):
+        a = ty_args(norm_ty(ty))
+        ln = backing.child('len').leaf(eng, z3.BitVecSort(64))
+        hd = backing.child('head').leaf(eng, z3.BitVecSort(64))
+        eng.add_constraint(z3.And(z3.ULT(ln, 1 << 32), z3.ULT(hd, 1 << 32)))
+        return DequeV(eng.fresh_seq(a[0], backing.child('buf'), bv((1 << 64) - 1, 64)), hd, ln)
+    eng.materialiser(r'^(std::collections::)?(vec_deque::)?VecDeque<.*>$', mat_deque)
+    VD = r'^(std::collections::)?(vec_deque::)?VecDeque::'
+    m(VD + r'len$', lambda e, a, c: dq(e, a[0]).len)
+    m(VD + r'is_empty$', lambda e, a, c: as_bool(z3.simplify(dq(e, a[0]).len == 0)))
+
+    def m_dq_push_back(eng, args, ctx):
+        d = dq(eng, args[0])
+        d.seq.store(eng, z3.simplify(d.head + d.len), args[1])
+        d.len = z3.simplify(d.len + 1)
+        return UNIT
+    m(VD + r'push_back$', m_dq_push_back)
+
+    def m_dq_pop_front(eng, args, ctx):
+        d = dq(eng, args[0])
+        oty = norm_ty(ctx.dest_ty) if ctx.dest_ty else 'Option'
+        if eng.fork_bool(d.len == 0):
+            return opt(eng, oty)
+        v = d.seq.load(eng, d.head)
+        d.head = z3.simplify(d.head + 1)
+        d.len = z3.simplify(d.len - 1)
+        return opt(eng, oty, v)
+    m(VD + r'pop_front$', m_dq_pop_front)
+
+    def m_dq_new(eng, args, ctx):
+        a = ty_args(norm_ty(ctx.dest_ty)) if ctx.dest_ty else ('u8',)
+        return DequeV(eng.fresh_seq(a[0], NameBacking(eng.fresh_name('deque')), bv((1 << 64) - 1, 64)), bv(0, 64), bv(0, 64))
+    m(VD + r'(new|with_capacity)$', m_dq_new)
+
+    def m_dq_iter(eng, args, ctx):
+        d = dq(eng, args[0])
+        return SliceIter(SliceRef(d.seq, d.head, d.len))
+    m(VD + r'iter$', m_dq_iter)
+    m(r'^<&(mut )?(std::collections::)?(vec_deque::)?VecDeque as (std::iter::|core::iter::)?IntoIterator>::into_iter$', m_dq_iter)
+    m(r'^<(std::collections::)?vec_deque::(iter::)?Iter as (std::iter::|core::iter::)?Iterator>::next$', lambda e, a, c: m_gen_next(e, a, c))
+
+    def m_dq_as_slices(eng, args, ctx):
+        # the split point of the ring buffer is arbitrary: a symbolic k <= len
+        d = dq(eng, args[0])
+        k = z3.BitVec(eng.fresh_name('ring_split'), 64)
+        eng.add_constraint(z3.ULE(k, d.len))
+        return Struct('()', [Cell(SliceRef(d.seq, d.head, k)), Cell(SliceRef(d.seq, z3.simplify(d.head + k), z3.simplify(d.len - k)))])
+    m(VD + r'as_slices$', m_dq_as_slices)
+
     # ---------------------------------------------------------------- Rc<RefCell<T>>
     class RcRefCell:
         rust_ty = 'Rc<RefCell>'
